@@ -28,6 +28,8 @@ CONSTANTS
   EcdhCurves = {"P-384", "P-521"}
   ReserAll = FALSE
   Flips = 2
+  PayClasses = {"pattern"}
+  KeyVars = {"plain"}
   Deviation = "none"
 INVARIANT Emit
 CHECK_DEADLOCK FALSE
